@@ -740,9 +740,36 @@ func c02AnswerStatusOK(c *Ctx, rule string) {
 			}
 			seen[v] = true
 			switch x := v.(type) {
+			case *ssa.Parameter:
+				// a writing helper (writeAnswer(w, body)): what its library callers hand in
+				fn := x.Parent()
+				for i, q := range fn.Params {
+					if q != x {
+						continue
+					}
+					for _, e := range ir.Callers(c.G, fn) {
+						if e.Site != nil && c.P.IsLib(e.Caller.Func) && i < len(e.Site.Common().Args) && walk(e.Site.Common().Args[i], d+1) {
+							return true
+						}
+					}
+				}
 			case *ssa.Extract:
 				if call, ok := x.Tuple.(*ssa.Call); ok && x.Index == 0 && ir.CallName(call) == "encoding/json.Marshal" {
 					return true
+				}
+				// the first result of a library encoder (encodeAnswer(resp)) that returns marshalled bytes
+				if call, ok := x.Tuple.(*ssa.Call); ok && x.Index == 0 {
+					if sc := ir.StaticCallee(call); sc != nil && c.P.IsLib(sc) {
+						found := false
+						ir.EachInstr(sc, func(b *ssa.BasicBlock, _ int, in ssa.Instruction) {
+							if r, ok := in.(*ssa.Return); ok && b != sc.Recover && len(ir.Results(r)) > 0 && walk(ir.Results(r)[0], d+1) {
+								found = true
+							}
+						})
+						if found {
+							return true
+						}
+					}
 				}
 			case *ssa.Phi:
 				for _, e := range x.Edges {
